@@ -416,6 +416,15 @@ def _oracle(case, items):
         if exact:
             ref = det_exact([D[i][j] for i in range(n) for j in range(n)], n)
             if d != ref: return "det = %s, the dense twin has determinant %s (n=%d)" % (d, ref, n)
+        elif elt == 'f64' and all(isfinite(x) for x in t[0] + t[1] + t[2]):
+            # floats: any backward-stable evaluation of the (multilinear) determinant is within c*n*eps*perm(|T|) of the
+            # exact value; perm(|T|) of a tridiagonal matrix is the continuant of the absolute values
+            ref = det_exact([Fraction(D[i][j]) for i in range(n) for j in range(n)], n)
+            p0, p1 = Fraction(1), abs(Fraction(t[1][0]))
+            for k in range(1, n):
+                p0, p1 = p1, abs(Fraction(t[1][k])) * p1 + abs(Fraction(t[0][k - 1]) * Fraction(t[2][k - 1])) * p0
+            if not isfinite(d) or abs(Fraction(d) - ref) > Fraction(1, 10 ** 11) * p1:
+                return "f64 det = %r, the dense twin has determinant %s (n=%d; allowed error 1e-11 * perm|T| = %g)" % (d, float(ref), n, float(p1) * 1e-11)
         return None
     if kind == "sets":
         if c.is_panic(): return "well-shaped diagonals rejected"
